@@ -4,6 +4,7 @@ package scen
 
 import (
 	"fmt"
+	"strings"
 	"sync"
 	"time"
 
@@ -36,16 +37,17 @@ type c34Rec struct {
 }
 
 type c34Run struct {
-	Clients  int       `json:"clients"`
-	Nodes    int       `json:"nodes"` // last one lives in a map namespace
-	Ops      [][]c34Op `json:"ops"`   // per client
-	Latency  []string  `json:"latency"`
-	RstAt    int       `json:"rst_after_ops"` // -1: no fault; else reset client 0's connection after that many ops overall
-	lat      []time.Duration
-	mu       sync.Mutex
-	recs     []c34Rec
-	opsDone  int
-	failures int
+	Clients      int       `json:"clients"`
+	Nodes        int       `json:"nodes"` // last one lives in a map namespace
+	Ops          [][]c34Op `json:"ops"`   // per client
+	Latency      []string  `json:"latency"`
+	RstAt        int       `json:"rst_after_ops"` // -1: no fault; else reset client 0's connection after that many ops overall
+	lat          []time.Duration
+	slowPermille int
+	mu           sync.Mutex
+	recs         []c34Rec
+	opsDone      int
+	failures     int
 }
 
 func (r *c34Run) Sample() any { return r }
@@ -53,6 +55,17 @@ func (r *c34Run) Sample() any { return r }
 func (r *c34Run) Setup(s *sim.Sim) {
 	p := s.Plan
 	s.DrawPolicy()
+	// computation takes no simulated time, so requests that arrive half a millisecond
+	// apart never overlap inside the server by themselves: in half of the runs server
+	// goroutines are held for a drawn (simulated) moment where they start or hand over
+	if p.Bool() {
+		r.slowPermille = sim.Pick(p, 100, 300, 600) // switched on once the clients are connected
+		s.SlowMax = 40
+		s.SlowDurs = []time.Duration{100 * time.Microsecond, time.Millisecond, 3 * time.Millisecond, 8 * time.Millisecond}
+		s.SlowMatch = func(label string) bool {
+			return strings.HasPrefix(label, "go:server.") || strings.HasPrefix(label, "send:server.")
+		}
+	}
 	r.Clients = 2 + p.Intn(4)
 	r.Nodes = 1 + p.Intn(3)
 	total := 8 + p.Intn(40)
@@ -133,6 +146,7 @@ func (r *c34Run) Main(s *sim.Sim) {
 		clients = append(clients, c)
 	}
 	conns := s.Net.Conns()
+	s.SlowPermille = r.slowPermille
 	var wg sync.WaitGroup
 	for ci := range clients {
 		wg.Add(1)
